@@ -378,7 +378,7 @@ def execute(scn):
                         res["nontrivial"] = True
                         res["sig"] = hash64(str(scn["mods"]), str(scn["ops"]))
                         return res
-                    if pname == target and compiled_with is None and exc[0] == "RuntimeError" and exc[1].strip() and _ambiguous(h, target, expects):
+                    if pname == target and compiled_with is None and interp.deliberate(e) and exc[1].strip() and _ambiguous(h, target, expects):
                         probe("ambiguous_request_refused")
                         res["nontrivial"] = True
                         res["sig"] = hash64(str(scn["mods"]), str(scn["ops"]))
